@@ -115,7 +115,7 @@ class ModuleGen(object):
         have_init = False
         for j in range(rng.randint(0, 5)):
             mk = rng.choice(['m', 'static', 'cls', 'prop', 'amethod', 'nestedcls', 'setter', 'deleter', 'wrapped', 'init',
-                             'ctxmethod', 'setter_stacked'])
+                             'ctxmethod', 'setter_stacked', 'getter_again'])
             if mk == 'init':
                 if have_init:
                     mk = 'm'
@@ -150,6 +150,15 @@ class ModuleGen(object):
                 self.doc('        ', layout='freeform', nblocks=1, forbid='property %s' % mk)
                 out.append('        pass')
                 out.append('')
+            elif mk == 'getter_again':
+                # the getter is declared a second time through the accessor: the property's docstring is the
+                # second one, the first function object is gone
+                out.append('    @property')
+                out.append('    def ga%d(self):' % j)
+                self.doc('        ', layout=rng.choice(['google', 'freeform']), nblocks=1, forbid='getter replaced by a later @x.getter')
+                out.append('        return 1')
+                out.append('')
+                self.func('    ', 'ga%d' % j, '%s.ga%d' % (cn, j), True, deco='@ga%d.getter' % j, nested=False)
             elif mk == 'setter_stacked':
                 # a setter / deleter that carries a further dotted decorator above the accessor decorator
                 self.func('    ', 'r%d' % j, '%s.r%d' % (cn, j), True, deco='@property', nested=False)
